@@ -123,6 +123,7 @@ func Load(repo string) (*Prog, error) {
 		}
 	}
 	sort.SliceStable(p.Funcs, func(i, j int) bool { return FuncName(p.Funcs[i]) < FuncName(p.Funcs[j]) })
+	ResolveRoles(p)
 	return p, nil
 }
 
@@ -141,6 +142,11 @@ func (p *Prog) Func(sp *ssa.Package, name string) *ssa.Function {
 	if f, ok := sp.Members[name].(*ssa.Function); ok {
 		return f
 	}
+	for f, canon := range funcAlias {
+		if canon == name && f.Signature.Recv() == nil && f.Pkg == sp {
+			return f
+		}
+	}
 	return nil
 }
 
@@ -154,8 +160,21 @@ func (p *Prog) Named(sp *ssa.Package, name string) *types.Named {
 	return nil
 }
 
-// Method returns the declared method typ.name (generic body), or nil.
+// Method returns the declared method typ.name (generic body), or nil. An unexported helper that
+// was renamed is found through its role alias.
 func (p *Prog) Method(sp *ssa.Package, typ, name string) *ssa.Function {
+	if f := p.methodExact(sp, typ, name); f != nil {
+		return f
+	}
+	for f, canon := range funcAlias {
+		if canon == name && f.Signature.Recv() != nil && typeName(f.Signature.Recv().Type()) == typ {
+			return f
+		}
+	}
+	return nil
+}
+
+func (p *Prog) methodExact(sp *ssa.Package, typ, name string) *ssa.Function {
 	n := p.Named(sp, typ)
 	if n == nil {
 		return nil
@@ -236,16 +255,20 @@ func FuncName(f *ssa.Function) string {
 	} else if o := f.Object(); o != nil && o.Pkg() != nil {
 		pkg = o.Pkg().Name() + "."
 	}
+	name := f.Name()
+	if c, ok := funcAlias[f]; ok {
+		name = c
+	}
 	if recv := f.Signature.Recv(); recv != nil {
 		t := recv.Type()
 		if pt, ok := t.(*types.Pointer); ok {
 			t = pt.Elem()
 		}
 		if n, ok := t.(*types.Named); ok {
-			return pkg + n.Obj().Name() + "." + f.Name()
+			return pkg + n.Obj().Name() + "." + name
 		}
 	}
-	return pkg + f.Name()
+	return pkg + name
 }
 
 // Pos renders a position relative to the repo root.
